@@ -6,6 +6,7 @@
 #include "vrt.h"
 
 #include <cstdint>
+#include <unordered_map>
 #include <unordered_set>
 #include <vector>
 
@@ -22,6 +23,7 @@ struct OpBase {
 //   int  Spec::alternatives(const Op&) const      -- number of alternative effects (normally 1)
 //   bool Spec::apply(State&, const Op&, int alt) const -- may the operation take effect now with its recorded result?
 //   uint64_t Spec::hash(const State&) const
+//   bool Spec::equal(const State&, const State&) const   -- exact equality (the memo never relies on the hash alone)
 template <class Spec>
 struct Checker {
   using Op = typename Spec::Op;
@@ -29,7 +31,18 @@ struct Checker {
   const Spec& spec;
   const std::vector<Op, vh::HAlloc<Op>>& ops;
   std::vector<uint64_t, vh::HAlloc<uint64_t>> pred; // bitmask of operations that must be linearized before i
-  std::unordered_set<uint64_t, std::hash<uint64_t>, std::equal_to<uint64_t>, vh::HAlloc<uint64_t>> memo;
+  // memo of visited (linearized set, state) pairs: exact comparison, the hash only selects the bucket
+  struct Visited {
+    uint64_t done;
+    State st;
+  };
+  std::unordered_multimap<uint64_t, Visited, std::hash<uint64_t>, std::equal_to<uint64_t>, vh::HAlloc<std::pair<const uint64_t, Visited>>> memo;
+  bool seen(uint64_t key, uint64_t done, const State& st) const {
+    auto r = memo.equal_range(key);
+    for (auto it = r.first; it != r.second; ++it)
+      if (it->second.done == done && spec.equal(it->second.st, st)) return true;
+    return false;
+  }
   std::vector<int, vh::HAlloc<int>> order; // witness linearization
   uint64_t nodes = 0, node_cap;
   bool capped = false;
@@ -52,7 +65,7 @@ struct Checker {
       return true; // inconclusive: never turned into a violation
     }
     uint64_t key = vh::hmix(done, spec.hash(st));
-    if (memo.count(key)) return false;
+    if (seen(key, done, st)) return false;
     for (size_t i = 0; i < n; ++i) {
       if (done & (1ull << i)) continue;
       if (pred[i] & ~done) continue;
@@ -69,7 +82,7 @@ struct Checker {
         order.pop_back();
       }
     }
-    memo.insert(key);
+    memo.emplace(key, Visited{done, st});
     return false;
   }
 
